@@ -378,11 +378,13 @@ def real_threads_smoke(ctx):
             rs = [threading.Thread(target=reader, daemon=True) for _ in range(2)]
             for th in ts + rs:
                 th.start()
+            import time as _time
+            deadline = _time.time() + 20.0      # a clean run needs well under a second
             for th in ts:
-                th.join(60)
+                th.join(max(0.0, deadline - _time.time()))
             stop.append(1)
             for th in rs:
-                th.join(10)
+                th.join(max(0.5, deadline - _time.time()))
             if any(th.is_alive() for th in ts + rs):
                 F.append({"kind": "C12:real-threads:deadlock", "sig": "real-deadlock",
                           "what": "real threads did not finish (deadlock / lost wake-up) on " + Z.__module__})
@@ -407,7 +409,9 @@ def real_threads_smoke(ctx):
 def extra(ctx):
     import traceback
     try:
-        return c12_lines.check(ctx) + real_threads_smoke(ctx)
+        F = c12_lines.check(ctx)
+        # on an implementation that already fails above, real threads may simply hang: keep the check short
+        return F if F else F + real_threads_smoke(ctx)
     except Exception:  # noqa
         return [{"kind": "C12:line-level exploration crashed", "sig": "lines crashed",
                  "what": "line-level exploration could not run: " + traceback.format_exc()[-600:],
